@@ -63,7 +63,8 @@ def run_tlc(module_file, cfg_text, workdir, env=None, workers=1, timeout=600, ex
     return res
 
 
-VERDICT_RE = re.compile(r'<<"VERDICT", (-?\d+), "([^"]*)", (\{[^}]*\}), (\d+)>>')
+# TLC breaks a tuple over several lines once it is wider than the page
+VERDICT_RE = re.compile(r'<<\s*"VERDICT",\s*(-?\d+),\s*"([^"]*)",\s*(\{[^}]*\}),\s*(\d+)\s*>>')
 
 
 def parse_verdicts(out):
